@@ -105,23 +105,27 @@ def _precedes_in_iteration(cfg, lp, dn, un):
 
 
 def check_no_stale_state(ctx, rule, funcs, allow, why):
-    """Armed form: in `funcs`, no loop-carried conditional state except the frozen, individually justified `allow`
-    entries {(function short name, variable): reason}."""
+    """Armed form: in `funcs`, no loop-carried conditional state except the frozen, individually justified exceptions
+    `allow` = {function short name: (number of deliberately carried variables, reason)}.  Exceptions are counted per
+    function, not matched by variable name, so renaming a local does not change the verdict."""
     n_loops = 0
-    seen_allowed = set()
     for f in funcs:
         ctx.saw(f)
         n_loops += sum(1 for x in walk_no_nested(f.node) if isinstance(x, (ast.For, ast.While)))
-        for lp, name, use, d in stale_loop_vars(f):
-            if (f.short, name) in allow:
-                seen_allowed.add((f.short, name))
-                continue
-            ctx.violation(rule, f.qualname, "loop-carried `%s`" % name, loc(f, use),
+        hits = stale_loop_vars(f)
+        names = []
+        for lp, name, use, d in hits:
+            if name not in names:
+                names.append(name)
+        budget, reason = allow.get(f.short, (0, ""))
+        if len(names) <= budget:
+            if names:
+                ctx.ok(rule, "%s: %d variable(s) carried between iterations on purpose — %s" % (f.short, len(names), reason), loc(f, f.node))
+            continue
+        for lp, name, use, d in hits:
+            ctx.violation(rule, f.qualname, "loop-carried state in %s" % f.short, loc(f, use),
                           "`%s` is assigned only on some paths through the loop body (line %d) and read in the same loop: in an "
-                          "iteration that does not assign it, the value of an earlier iteration (or the pre-loop value) is used. "
-                          "%s" % (name, d.lineno, why))
-    for (fn, name), reason in allow.items():
-        if (fn, name) in seen_allowed:
-            ctx.ok(rule, "%s: `%s` is carried between iterations on purpose — %s" % (fn, name, reason), "")
-    ctx.ok(rule, "%d loops in %d functions: no other loop-carried conditional state" % (n_loops, len(list(funcs))), "")
+                          "iteration that does not assign it, the value of an earlier iteration (or the pre-loop value) is used "
+                          "(%d such variable(s) here, %d deliberate). %s" % (name, d.lineno, len(names), budget, why))
+    ctx.ok(rule, "%d loops in %d functions: no loop-carried conditional state beyond the frozen exceptions" % (n_loops, len(list(funcs))), "")
     return n_loops
